@@ -141,6 +141,10 @@ def gen_flags(rng, lim):
         f["ext"] = rng.choice(["rs", "py,go", "rs,js"])
     if rng.random() < 0.15:
         f["exclude"] = [rng.choice(["**/tests/**", "*.py", "**/a/**"])]
+    if f["baseline"] and rng.random() < 0.4:
+        # the ratchet can fail the run (strict + stale entry) but never under --warn-only
+        f["ratchet"] = rng.choice(["warn", "strict", "strict", "auto"])
+        f["warn_only"] = f["warn_only"] or rng.random() < 0.3
     if rng.random() < 0.1:
         f["warn_threshold"] = rng.choice([0.5, 0.7, 1.0, 0.5, 1.0, 1.5])      # 1.5: rejected by the post-override validation (exit 2)
     return f
@@ -322,7 +326,7 @@ def tail_records(sres, baseline):
 
 def model_line(facts, sres, flags, cfg, baseline):
     """fact-level model (check_run): every per-file fact comes from the python oracle (cross-check path)"""
-    recs = ["RUN %d %d - - %d %d" % (int(config_error(cfg, flags)), 1 if flags["baseline"] else 0, int(flags["warn_only"]), int(flags["wae"] or cfg["wae_cfg"]))]
+    recs = ["RUN %d %d %s - %d %d" % (int(config_error(cfg, flags)), 1 if flags["baseline"] else 0, (flags.get("ratchet") or "-")[0], int(flags["warn_only"]), int(flags["wae"] or cfg["wae_cfg"]))]
     for f in facts:
         recs.append("F %s %d %d %d %d %d %d" % (enc(f["path"]), f["scanned"], f["selected"], f["counted"], f["count"], f["limit"], f["warn"]))
     return ";".join(recs + tail_records(sres, baseline))
@@ -374,7 +378,7 @@ def input_records(proj, cfg, glob, facts):
 def command_line(proj, cfg, flags, glob, facts, sres, baseline):
     """composed model (Check/Compose.v check_command): python supplies the walk (`scanned`), the structure results and the
     glob oracle data; selected / counted / count / limit / warn / verdict / config error / exit are computed by the extraction"""
-    recs = ["RUN 0 %d - - %d %d" % (1 if flags["baseline"] else 0, int(flags["warn_only"]), int(flags["wae"] or cfg["wae_cfg"]))]
+    recs = ["RUN 0 %d %s - %d %d" % (1 if flags["baseline"] else 0, (flags.get("ratchet") or "-")[0], int(flags["warn_only"]), int(flags["wae"] or cfg["wae_cfg"]))]
     return ";".join(recs + cmd_records(cfg, flags) + input_records(proj, cfg, glob, facts) + tail_records(sres, baseline))
 
 
@@ -459,6 +463,8 @@ def cli_args(flags, bl_path):
         a += ["--baseline", bl_path]
     if flags.get("fail_fast"):
         a.append("--fail-fast")
+    if flags.get("ratchet"):
+        a += ["--ratchet", flags["ratchet"]]
     return a
 
 
@@ -500,7 +506,7 @@ def run(ctx):
                         if rng.random() < 0.4:
                             baseline["./" + rel] = {"type": "content", "lines": proj.files[rel][0], "hash": "0" * 64}
                     for d in proj.dirs:
-                        if rng.random() < 0.3:
+                        if rng.random() < 0.3 and not flags.get("ratchet"):
                             baseline["." if d == "." else "./" + d] = {"type": "structure", "violation_type": rng.choice(["files", "dirs"]), "count": 9}
                     json.dump({"version": 2, "files": baseline}, open(bl_path, "w"))
                 facts, sres = oracle(proj, cfg, flags, glob, baseline)
